@@ -132,6 +132,9 @@ func (e *Enc) ob(fr *Frame, kind, name string, guard, formula Term, src string, 
 	if fr.top != nil {
 		top = fr.top
 	}
+	if top.contract != nil && top.contract.SubtypeOf != "" {
+		name = "subtype@" + shortKey(top.contract.SubtypeOf) + "/" + name
+	}
 	o := &Obligation{Name: funcShort(top.fn) + "/" + name, Kind: kind, Func: fnKey(top.fn), Mark: e.sc.Mark(), Guard: guard, Formula: formula, Src: src, sc: e.sc}
 	if pos.IsValid() {
 		p := e.w.fset.Position(pos)
@@ -479,6 +482,7 @@ func (e *Enc) execFunc(fr *Frame, st *State, reach Term) ([]Val, *State, Term) {
 	type edge struct{ from, to int }
 	edgeCond := map[edge]Term{}
 	outState := map[*ssa.BasicBlock]*State{}
+	backN := map[*ssa.BasicBlock]int{}
 	var rets []retRec
 
 	for _, b := range blocks {
@@ -663,9 +667,10 @@ func (e *Enc) execFunc(fr *Frame, st *State, reach Term) ([]Val, *State, Term) {
 			}
 			fr.loopHdr = s
 			invs := e.loopInvs(fr, loopOrd[s])
+			backN[s]++
 			for k, inv := range invs {
 				f := e.evalBool(fr, inv.Expr, outState[b], fr.entry, inv)
-				e.ob(fr, "inv.preserve", fmt.Sprintf("loop%d.inv.preserve#%d", loopOrd[s], k), c, f, inv.Src, s.Instrs[0].Pos())
+				e.ob(fr, "inv.preserve", fmt.Sprintf("loop%d.inv.preserve#%d.e%d", loopOrd[s], k, backN[s]), c, f, inv.Src, s.Instrs[0].Pos())
 			}
 			for phi, v := range saved {
 				fr.vals[phi] = v
